@@ -32,7 +32,7 @@ RULES = {
     "C03-M1": "character classes of the matcher: short form ends at a-z; separators '?:[]' / ':?'; suffix digits 0-9; strnpbrk finds the first member inside (str, size)",
     "C03-M2": "matchPattern: long form or short form; numeric comparison on the keyword without '#' iff the keyword ends in '#'",
     "C03-M3": "decision tables of compareStr and compareStrAndNum (length-exact / decimal suffix uses up the rest / default kept when absent)",
-    "C03-M4": "matchCommand: '?' agreement, single leading ':' skipped, ':*' refused",
+    "C03-M4": "matchCommand: '?' agreement, single leading ':' skipped, ':*' refused; the header ends at its terminator or at the maximum search length",
     "C03-M5": "after every keyword boundary search the keyword is examined for '#'; default stored under numbers && idx < capacity; index advances on both arms (skipped keywords included)",
     "C03-M6": "stores into numbers[] only below its capacity",
     "C03-M7": "comparisons are case-insensitive; the library's own fold is exactly A-Z -> a-z",
@@ -489,6 +489,35 @@ def rule_m4(ck, prog, S):
         ck.violated("C03-M4", st, K.loc(f),
                     "query-mark agreement is not established (refuses a header without '?': %s; strips both marks together: %s)"
                     % (refuse, sorted(decs)))
+    # the header ends at its terminator or at len, whichever comes first (len is documented as the maximum search length)
+    st = K.site(f, "header-extent", 0)
+    defs = []
+    for n in f.nodes.values():
+        if n.k == "DeclStmt":
+            for d in n.get("decls", []):
+                if d["name"] == "cmd_len" and "init" in d:
+                    defs.append((n, f.nodes[d["init"]]))
+    for n, t in C.stores(f):
+        if t.get("path") == "cmd_len" and n.get("op") == "=":
+            defs.append((n, n.child(1)))
+    hdr, mx = f.params[1]["name"], f.params[2]["name"]
+
+    def is_extent(e):
+        e = e.strip_all_casts()
+        if e.k != "CallExpr" or e.get("callee") not in ("strnlen", "BSD_strnlen"):
+            return False
+        a = C.call_args(e)
+        return len(a) == 2 and a[0].strip_all_casts().get("path") == hdr and a[1].strip_all_casts().get("path") == mx
+    if not defs:
+        ck.anchor_lost("C03-M4", "matchCommand: no definition of the header length")
+    elif all(is_extent(e) for _n, e in defs):
+        ck.holds("C03-M4", st, K.loc(f, defs[0][0]), "header length = strnlen(%s, %s)" % (hdr, mx))
+    else:
+        bad = [(n_, e) for n_, e in defs if not is_extent(e)][0]
+        ck.violated("C03-M4", st, K.loc(f, bad[0]),
+                    "the header length is `%s`, not the length of the terminated header bounded by %s: with a maximum search "
+                    "length beyond the terminator the NUL bytes are matched as part of the last mnemonic and the '?' test reads "
+                    "%s[%s - 1]" % (bad[1].src, mx, hdr, mx))
     # leading colon / ':*'
     st = K.site(f, "leading-colon", 0)
     star_refused = False
